@@ -6,7 +6,7 @@ Require Import Scan.
 
 Inductive ev :=
 | VStreamStart | VStreamEnd
-| VDocStart (explicit : bool) (version : option (str * str)) (tags : list (str * str))
+| VDocStart (explicit : bool) (version : option (N * N)) (tags : list (str * str))
 | VDocEnd (explicit : bool)
 | VAlias (a : str)
 | VScalar (anchor : option str) (tag : option str) (i0 i1 : bool) (v : str) (st : style)
@@ -24,7 +24,7 @@ Inductive pstate :=
 | PFlowMapFirstKey | PFlowMapKey | PFlowMapValue | PFlowMapEmptyValue.
 
 Record pst := { sc : st; pstate_ : option pstate; pstates : list pstate; pmarks : list mark;
-                handles : list (str * str); version_ : option (str * str) }.
+                handles : list (str * str); version_ : option (N * N) }.
 
 (* parser errors reuse the scanner's res type: code >= 100 means ParserError *)
 Definition P (A : Type) := pst -> res (A * pst).
@@ -50,7 +50,7 @@ Definition pop_mark : P unit := fun s =>
   match rev (pmarks s) with [] => Crash IndexError
   | _ :: r => Ok (tt, {| sc := sc s; pstate_ := pstate_ s; pstates := pstates s; pmarks := rev r; handles := handles s; version_ := version_ s |}) end.
 Definition top_mark : P mark := fun s => match rev (pmarks s) with [] => Crash IndexError | m :: _ => Ok (m, s) end.
-Definition set_handles (h : list (str * str)) (v : option (str * str)) : P unit :=
+Definition set_handles (h : list (str * str)) (v : option (N * N)) : P unit :=
   fun s => Ok (tt, {| sc := sc s; pstate_ := pstate_ s; pstates := pstates s; pmarks := pmarks s; handles := h; version_ := v |}).
 
 (* token access: each runs the scanner's fill loop first *)
@@ -90,7 +90,7 @@ Fixpoint assoc (k : str) (l : list (str * str)) : option str :=
   match l with [] => None | (k', v) :: l' => if str_eqb k k' then Some v else assoc k l' end.
 
 (* process_directives (parser.py:217-246) *)
-Fixpoint directives_loop (fuel : nat) (ver : option (str * str)) (hs : list (str * str)) : P (option (str * str) * list (str * str)) :=
+Fixpoint directives_loop (fuel : nat) (ver : option (N * N)) (hs : list (str * str)) : P (option (N * N) * list (str * str)) :=
   match fuel with O => fun _ => OutOfFuel | S f =>
     b <~ check is_directive ;;
     if b then
@@ -99,7 +99,7 @@ Fixpoint directives_loop (fuel : nat) (ver : option (str * str)) (hs : list (str
       | TDirective name (DYaml ma mi) =>
           match ver with
           | Some _ => perr None 1 (t_start t)
-          | None => if negb (str_eqb ma [49%N]) then perr None 2 (t_start t) else directives_loop f (Some (ma, mi)) hs
+          | None => if negb (N.eqb ma 1%N) then perr None 2 (t_start t) else directives_loop f (Some (ma, mi)) hs
           end
       | TDirective name (DTag h p) =>
           match assoc h hs with Some _ => perr None 3 (t_start t) | None => directives_loop f ver (hs ++ [(h, p)]) end
@@ -107,7 +107,7 @@ Fixpoint directives_loop (fuel : nat) (ver : option (str * str)) (hs : list (str
       end
     else pret (ver, hs)
   end.
-Definition process_directives : P (option (str * str) * list (str * str)) :=
+Definition process_directives : P (option (N * N) * list (str * str)) :=
   s <~ pget ;;
   r <~ directives_loop (S (S (length (rest (sc s))))) None [] ;;
   let '(ver, hs) := r in
